@@ -2,6 +2,8 @@ package main
 
 import (
 	"go/types"
+	"sort"
+	"strings"
 
 	"golang.org/x/tools/go/ssa"
 )
@@ -214,6 +216,29 @@ func (v *FnVC) withLocalFrameExcept(fr *frame, st *State, skip map[string]Sort, 
 		}
 		v.cellsOf(elemTypeOfAddr(a), sc.T, &cells, 0)
 	}
+	if fr.top {
+		// backing arrays built by this function that no callee can reach yet
+		pa := v.privateArrayBases(fr)
+		var keys []string
+		for k := range pa {
+			keys = append(keys, k)
+		}
+		sort.Strings(keys)
+		for _, k := range keys {
+			fams := map[string]Sort{}
+			elemStoreFams(pa[k].elem, fams)
+			var fns []string
+			for f := range fams {
+				fns = append(fns, f)
+			}
+			sort.Strings(fns)
+			for _, f := range fns {
+				if strings.HasPrefix(f, "E#") {
+					cells = append(cells, cellRef{fam: f, sort: fams[f], two: true, base: pa[k].base})
+				}
+			}
+		}
+	}
 	type saved struct {
 		c   cellRef
 		old Term
@@ -343,4 +368,242 @@ func allocRoot(v ssa.Value, depth int) *ssa.Alloc {
 		}
 	}
 	return nil
+}
+
+// ---- private slices --------------------------------------------------------------------------------------
+// A slice class is a set of slice-typed SSA values that may share a backing array: it is closed under phi,
+// reslicing, type changes and append (result and first operand). A class is "locally built" when every member is a
+// nil constant, a make([]T, ..), or one of those derived values: no array of the class was ever received from
+// outside. The arrays of such a class are unreachable for a callee at instruction H unless an escaping use of a
+// member (anything but indexing, len/cap, range, reslicing, being the first operand of append, or flowing into a
+// phi) can execute before H. The rows of these arrays survive the havoc of a call or loop at H.
+
+type sliceClassInfo struct {
+	members []ssa.Value
+	escapes []ssa.Instruction // escaping uses of any member
+	tainted bool
+}
+
+func (fr *frame) sliceClasses() []*sliceClassInfo {
+	if fr.sliceCls != nil {
+		return fr.sliceCls
+	}
+	fn := fr.fn
+	parent := map[ssa.Value]ssa.Value{}
+	var find func(x ssa.Value) ssa.Value
+	find = func(x ssa.Value) ssa.Value {
+		if p, ok := parent[x]; ok && p != x {
+			r := find(p)
+			parent[x] = r
+			return r
+		}
+		parent[x] = x
+		return x
+	}
+	union := func(a, b ssa.Value) { parent[find(a)] = find(b) }
+	isSlice := func(x ssa.Value) bool {
+		_, ok := under(x.Type()).(*types.Slice)
+		return ok
+	}
+	var seeds []ssa.Value
+	for _, b := range fn.Blocks {
+		for _, ins := range b.Instrs {
+			switch x := ins.(type) {
+			case *ssa.MakeSlice:
+				seeds = append(seeds, x)
+				find(x)
+			case *ssa.Call:
+				if bi, ok := x.Call.Value.(*ssa.Builtin); ok && bi.Name() == "append" && len(x.Call.Args) > 0 {
+					seeds = append(seeds, x)
+					union(x, x.Call.Args[0])
+				}
+			case *ssa.Phi:
+				if isSlice(x) {
+					for _, e := range x.Edges {
+						union(x, e)
+					}
+				}
+			case *ssa.Slice:
+				if isSlice(x) && isSlice(x.X) {
+					union(x, x.X)
+				}
+			case *ssa.ChangeType:
+				if isSlice(x) && isSlice(x.X) {
+					union(x, x.X)
+				}
+			}
+		}
+	}
+	classes := map[ssa.Value]*sliceClassInfo{}
+	for x := range parent {
+		r := find(x)
+		ci := classes[r]
+		if ci == nil {
+			ci = &sliceClassInfo{}
+			classes[r] = ci
+		}
+		ci.members = append(ci.members, x)
+	}
+	for _, ci := range classes {
+		for _, m := range ci.members {
+			switch x := m.(type) {
+			case *ssa.Const:
+				if !x.IsNil() {
+					ci.tainted = true
+				}
+				continue // constants have no referrers of their own
+			case *ssa.MakeSlice, *ssa.Phi, *ssa.Slice, *ssa.ChangeType:
+			case *ssa.Call:
+				if bi, ok := x.Call.Value.(*ssa.Builtin); !ok || bi.Name() != "append" {
+					ci.tainted = true
+				}
+			default:
+				ci.tainted = true
+			}
+			if ci.tainted {
+				break
+			}
+			refs := m.Referrers()
+			if refs == nil {
+				ci.tainted = true
+				break
+			}
+			for _, r := range *refs {
+				switch u := r.(type) {
+				case *ssa.DebugRef, *ssa.Phi, *ssa.Slice, *ssa.ChangeType:
+				case *ssa.IndexAddr:
+					// element address: only to load from or store a value into it
+					if u.X != m {
+						continue
+					}
+					if ur := u.Referrers(); ur != nil {
+						for _, uu := range *ur {
+							switch w := uu.(type) {
+							case *ssa.UnOp, *ssa.DebugRef:
+							case *ssa.Store:
+								if w.Addr != u {
+									ci.escapes = append(ci.escapes, w)
+								}
+							default:
+								ci.escapes = append(ci.escapes, uu)
+							}
+						}
+					}
+				case *ssa.Range:
+				case *ssa.Call:
+					if bi, ok := u.Call.Value.(*ssa.Builtin); ok {
+						switch bi.Name() {
+						case "len", "cap":
+							continue
+						case "append":
+							if u.Call.Args[0] == m && (len(u.Call.Args) < 2 || u.Call.Args[1] != m) {
+								continue
+							}
+						}
+					}
+					ci.escapes = append(ci.escapes, u)
+				default:
+					ci.escapes = append(ci.escapes, r)
+				}
+			}
+		}
+	}
+	for _, ci := range classes {
+		if !ci.tainted {
+			fr.sliceCls = append(fr.sliceCls, ci)
+		}
+	}
+	if fr.sliceCls == nil {
+		fr.sliceCls = []*sliceClassInfo{}
+	}
+	return fr.sliceCls
+}
+
+// blockReaches: a path of at least one edge leads from a to b
+func (fr *frame) blockReaches(a, b *ssa.BasicBlock) bool {
+	if fr.reachMemo == nil {
+		fr.reachMemo = map[[2]int]bool{}
+	}
+	k := [2]int{a.Index, b.Index}
+	if r, ok := fr.reachMemo[k]; ok {
+		return r
+	}
+	seen := map[int]bool{}
+	work := append([]*ssa.BasicBlock(nil), a.Succs...)
+	res := false
+	for len(work) > 0 {
+		x := work[len(work)-1]
+		work = work[:len(work)-1]
+		if x == b {
+			res = true
+			break
+		}
+		if seen[x.Index] {
+			continue
+		}
+		seen[x.Index] = true
+		work = append(work, x.Succs...)
+	}
+	fr.reachMemo[k] = res
+	return res
+}
+
+func instrIndex(ins ssa.Instruction) int {
+	for i, x := range ins.Block().Instrs {
+		if x == ins {
+			return i
+		}
+	}
+	return -1
+}
+
+// privateArrayBases: backing arrays (base terms with their element type) that no callee can reach at the current
+// instruction (fr.curIns; the first instruction of the block at a loop head).
+func (v *FnVC) privateArrayBases(fr *frame) map[string]privArr {
+	out := map[string]privArr{}
+	if fr.curBlock == nil || fr.fn == nil || len(fr.fn.Blocks) == 0 {
+		return out
+	}
+	hb := fr.curBlock
+	hi := -1
+	if fr.curIns != nil && fr.curIns.Block() == hb {
+		hi = instrIndex(fr.curIns)
+	}
+	for _, ci := range fr.sliceClasses() {
+		escaped := false
+		for _, u := range ci.escapes {
+			ub := u.Block()
+			if ub == nil {
+				escaped = true
+				break
+			}
+			if (ub == hb && hi >= 0 && instrIndex(u) < hi) || fr.blockReaches(ub, hb) {
+				escaped = true
+				break
+			}
+		}
+		if escaped {
+			continue
+		}
+		for _, m := range ci.members {
+			if _, isC := m.(*ssa.Const); isC {
+				continue
+			}
+			val, ok := fr.vals[m]
+			if !ok {
+				continue
+			}
+			sv, ok := val.(SliceV)
+			if !ok {
+				continue
+			}
+			out[sv.Arr.S] = privArr{base: sv.Arr, elem: under(m.Type()).(*types.Slice).Elem()}
+		}
+	}
+	return out
+}
+
+type privArr struct {
+	base Term
+	elem types.Type
 }
